@@ -114,7 +114,17 @@ def uniq : List Key → List Key
   | [] => []
   | k :: ks => k :: (uniq ks).filter (fun x => x != k)
 
-def sortKeys (ks : List Key) : List Key := ks.mergeSort keyLe
+/-- insertion sort (structural recursion, so that closed instances of the model reduce in the kernel);
+for the duplicate-free lists it is applied to, any correct sort returns the same list -/
+def insertBy {α : Type} (le : α → α → Bool) (a : α) : List α → List α
+  | [] => [a]
+  | b :: bs => if le a b then a :: b :: bs else b :: insertBy le a bs
+
+def isort {α : Type} (le : α → α → Bool) : List α → List α
+  | [] => []
+  | a :: as => insertBy le a (isort le as)
+
+def sortKeys (ks : List Key) : List Key := isort keyLe ks
 
 /-- `a.difference(b)`: unique elements of `a` that are not in `b`, sorted -/
 def diff (a b : List Key) : List Key := sortKeys (uniq (a.filter (fun k => !b.contains k)))
@@ -156,7 +166,7 @@ def entryLe (a b : Entry) : Bool :=
   decide (a.sim < b.sim) || (a.sim == b.sim && keyLe a.key b.key)
 
 /-- `sort_index(level="simulant_index")` -/
-def sortEntries (es : List Entry) : List Entry := es.mergeSort entryLe
+def sortEntries (es : List Entry) : List Entry := isort entryLe es
 
 def rowOf (e : Entry) : Int × Key := (e.sim, e.key)
 
